@@ -58,6 +58,16 @@ def _hash_tree():
     return h
 
 
+def _prune_locks():
+    now = time.time()
+    for f in glob.glob(os.path.join(BUILD, '.lock-*')):
+        try:
+            if now - os.path.getmtime(f) > 86400:
+                os.remove(f)
+        except OSError:
+            pass
+
+
 def _prune(pattern, keep):
     """Remove stale build directories: not the current one, not used for two hours (another check may be running from it), keep the newest three."""
     old = sorted([d for d in glob.glob(pattern) if d != keep], key=os.path.getmtime)
@@ -87,7 +97,7 @@ def build(variant='plain', quiet=False):
     os.makedirs(BUILD, exist_ok=True)
     out = os.path.join(BUILD, '%s-%s' % (variant, key))
     binary = os.path.join(out, 'sim')
-    lock = open(os.path.join(BUILD, '.lock-' + variant), 'w')
+    lock = open(os.path.join(BUILD, '.lock-%s-%s' % (variant, key)), 'w')  # per tree: checks of another source tree do not wait for this build
     fcntl.flock(lock, fcntl.LOCK_EX)
     try:
         if os.path.exists(os.path.join(out, '.ok')):
@@ -115,11 +125,17 @@ def build(variant='plain', quiet=False):
         r = subprocess.run(cmd, stdout=subprocess.PIPE, stderr=subprocess.STDOUT, text=True)
         if r.returncode != 0:
             raise BuildFailure('link failed:\n' + r.stdout[-3000:], cmd)
+        for o in objs:  # only the binary is needed afterwards (a sanitizer build's objects are ~0.8 GB)
+            try:
+                os.remove(o)
+            except OSError:
+                pass
         open(os.path.join(out, '.ok'), 'w').write(key)
         if not quiet:
             log('[build] %s: done in %.0fs -> %s' % (variant, time.time() - t0, out))
         # prune stale build dirs of this variant
         _prune(os.path.join(BUILD, variant + '-*'), out)
+        _prune_locks()
         return binary
     finally:
         fcntl.flock(lock, fcntl.LOCK_UN)
@@ -134,7 +150,7 @@ def build_aux(name, sources, cxx, flags, ld=(), quiet=True):
     os.makedirs(BUILD, exist_ok=True)
     out = os.path.join(BUILD, 'aux-%s-%s' % (name, key))
     binary = os.path.join(out, name)
-    lock = open(os.path.join(BUILD, '.lock-aux-' + name), 'w')
+    lock = open(os.path.join(BUILD, '.lock-aux-%s-%s' % (name, key)), 'w')
     fcntl.flock(lock, fcntl.LOCK_EX)
     try:
         if os.path.exists(os.path.join(out, '.ok')):
@@ -402,7 +418,7 @@ VEC_HOOKS = [e + '_' + k for e in ('ETr', 'ENonTr', 'ENonTrX') for k in ('basic'
 VEC_LIMITS = [e + '_limits' for e in ELEMS] + [e + '_basic' for e in ELEMS] + ['ETriv_mixed', 'ETr_mixed', 'ENonTr_mixed']
 VEC_SMALL = [e + '_' + k for e in ELEMS for k in ('basic', 'mixed')] + ['ETrivS_overlap', 'ETrivB_overlap']
 # library-style element types: std::string (SSO self-pointer), std::pair of (non-)relocatable members, a nested inline SmallVector
-VEC_EXOTIC = ['Str_basic', 'PairTN_basic', 'PairNT_basic', 'PairTT_basic', 'Nest_basic', 'NestStr_basic']
+VEC_EXOTIC = ['Str_basic', 'PairTN_basic', 'PairNT_basic', 'PairTT_basic', 'Nest_basic', 'NestStr_basic', 'Align_basic']
 VEC_EXOTIC_HOOKS = ['PairTN_basic', 'PairNT_basic', 'PairTT_basic', 'Nest_basic']
 
 
@@ -423,18 +439,18 @@ HIST_RULE = ('seeded operation histories (profile "%s") over a pool of 2-5 vecto
              '{basic, mixed, limits} allocator/size_type/N mixes + a pointer-overlap family + an arithmetic (double) element family); an evaluation is one run (one seed = one plan '
              'of ~25 operations plus its environment stream); distinct_nontrivial counts %s')
 CHECKS = {
-    'C01': dict(level='exploration', jobs=vjobs('hist', VEC_ALL + VEC_EXOTIC), quick=[('asan', 42), ('plain14', 8)], thorough=[('plain', 420), ('asan', 300), ('plain20', 120), ('plain14', 120), ('asan14', 90)], cellprop='1',
+    'C01': dict(level='exploration', jobs=vjobs('hist', VEC_ALL + VEC_EXOTIC), quick=[('asan', 40), ('plain14', 6), ('plain20', 6)], thorough=[('plain', 420), ('asan', 300), ('plain20', 120), ('plain14', 120), ('asan14', 90)], cellprop='1',
                 rule=HIST_RULE % ('hist', '(type, operation kind, state class of target, state class of partner, outcome) cells reached')),
     'C02': dict(level='exploration', jobs=vjobs('hist', VEC_HOOKS + VEC_EXOTIC_HOOKS) + vjobs('inline', VEC_HOOKS[:6]) + vjobs('fault', ['ENonTr_basic', 'ETr_mixed', 'ENonTrX_limits', 'PairTN_basic']) + sjobs('sethist', SET_HOOKS) + sjobs('setsmall', SET_HOOKS[2:]) + sjobs('setfault', SET_HOOKS[1:3]), quick=[('asan', 42), ('plain14', 8)],
                 thorough=[('plain', 420), ('asan', 300), ('plain14', 120), ('asan14', 90)], cellprop='1',
                 rule=HIST_RULE % ('hist/inline, identity-recording element types only',
                                   '(type, operation kind, state classes, outcome) cells reached with the element ledger balanced after the step')),
-    'C03': dict(level='exploration', jobs=sjobs('sethist', SET_FLAT), quick=('asan', 40), thorough=[('plain', 420), ('asan', 300), ('plain20', 120)], cellprop='3',
+    'C03': dict(level='exploration', jobs=sjobs('sethist', SET_FLAT) + sjobs('setfault', ['ETr_flat', 'ENonTr_flat']), quick=[('asan', 36), ('plain20', 7)], thorough=[('plain', 420), ('asan', 300), ('plain20', 120)], cellprop='3',
                 rule='seeded operation histories (profile "sethist") over a pool of 2-4 FlatSets of one family (3 element categories; underlying '
                      'amc::vector / SmallVector<4> / FixedCapacityVector<12> / std::vector; two comparator types, transparent variant; comparator '
                      'mode less / greater / coarse drawn per run, sets of the second comparator type get another mode); an evaluation is one run; '
                      'distinct_nontrivial counts (type, operation, size bucket, partner) cells reached with the std::set model agreeing'),
-    'C04': dict(level='exploration', jobs=sjobs('setsmall', SET_SMALL) + sjobs('sethist', SET_SMALL), quick=('asan', 40),
+    'C04': dict(level='exploration', jobs=sjobs('setsmall', SET_SMALL) + sjobs('sethist', SET_SMALL) + sjobs('setfault', ['ETr_small', 'ENonTr_small']), quick=[('asan', 36), ('plain20', 7)],
                 thorough=[('plain', 420), ('asan', 300), ('plain20', 120)], cellprop='4',
                 rule='seeded operation histories (profiles "setsmall": key domain 3-9, grow_past_N / drain / refill macros, merges and comparisons '
                      'between sets of different N, comparator type and backing; "sethist") over a pool of SmallSets (N in {1,2,3,5}, std::set and '
@@ -477,10 +493,10 @@ CHECKS = {
     'C13': dict(level='exploration', jobs=vjobs('swap2', VEC_ALL), quick=('asan', 40), thorough=[('plain', 420), ('asan', 240)], cellprop='13',
                 rule=HIST_RULE % ('swap2: operand states steered by macro operations, swap2 between any two pool members, interleaved with '
                                   'ordinary operations', '(ordered type pair, state class pair, outcome) cells')),
-    'C14': dict(level='exploration', jobs=vjobs('reloc', VEC_ALL + VEC_EXOTIC) + sjobs('setreloc', SET_FLAT + SET_SMALL), quick=('asan', 50), thorough=[('plain', 420), ('asan', 240)], cellprop='14',
+    'C14': dict(level='exploration', jobs=vjobs('reloc', VEC_ALL + VEC_EXOTIC) + sjobs('setreloc', SET_FLAT + SET_SMALL), quick=[('asan', 42), ('plain20', 8)], thorough=[('plain', 420), ('asan', 240), ('plain20', 120)], cellprop='14',
                 rule=HIST_RULE % ('reloc: "memcpy the container object to a fresh address, scribble and free the old bytes" as a generated operation',
                                   '(type, state class at relocation) and (type, state class, following operation) cells')),
-    'C18': dict(level='exploration', jobs=vjobs('growth', [f for f in VEC_ALL]) + vjobs('hist', ['ETriv_basic', 'ETr_mixed', 'ENonTr_basic', 'ENonTrX_mixed', 'ETr_limits']), quick=('plain', 30),
+    'C18': dict(level='exploration', jobs=vjobs('growth', [f for f in VEC_ALL]) + vjobs('hist', ['ETriv_basic', 'ETr_mixed', 'ENonTr_basic', 'ENonTrX_mixed', 'ETr_limits']) + vjobs('growth_huge', ['ETrivB_overlap', 'ETrivS_overlap']), quick=('plain', 34),
                 thorough=[('plain', 300)], thorough_profile_map={'growth': 'growth_big'}, cellprop='18',
                 rule=HIST_RULE % ('growth: start state by a short history, then n single appends (n up to 1200 quick / 5000 thorough), reserve and '
                                   'shrink_to_fit', '(type, start state class, n bucket, number of reallocations) cells')),
@@ -705,7 +721,7 @@ def main(argv):
     seed = int(os.environ.get('VERIF_SEED', '1'))
     try:
         if cmd == 'build':
-            for v in (rest or ['plain', 'asan', 'plain14']):
+            for v in (rest or ['plain', 'asan', 'plain14', 'plain20']):
                 if v == 'aux':
                     import c15, c16, c20
                     with cf.ThreadPoolExecutor(NPROC) as ex:
